@@ -124,14 +124,6 @@ impl Keys {
         p
     }
     fn signature(&mut self, by: usize, msg: usize) -> XSignature {
-        if by == 0 {
-            // a genuine signature with flipped bytes
-            let s = self.signature(1, msg);
-            let mut b = s.to_bytes();
-            b[(msg * 7) % 64] ^= 0x40;
-            b[63 - (msg % 5)] ^= 0x01;
-            return XSignature::from_bytes(b);
-        }
         if let Some(s) = self.sigs.get(&(by, msg)) {
             return *s;
         }
@@ -141,14 +133,43 @@ impl Keys {
         self.sigs.insert((by, msg), s);
         s
     }
+    /// The signature bytes of a bundle spec. `sig_by == 0` = a forgery derived from the GENUINE signature
+    /// of this bundle's identity over this bundle's pre-key; `sig_msg` selects the corruption:
+    /// 0 = all-zero signature, k = one bit flipped in byte (7k mod 64) (and one more for large k).
+    fn sig_of(&mut self, b: &BSpec) -> XSignature {
+        if b.sig_by != 0 {
+            return self.signature(b.sig_by, b.sig_msg);
+        }
+        if b.sig_msg == 0 {
+            return XSignature::from_bytes([0u8; 64]);
+        }
+        let mut x = self.signature(b.ident, b.prekey).to_bytes();
+        x[(b.sig_msg * 7) % 64] ^= 0x40;
+        if b.sig_msg > 64 {
+            x[63 - (b.sig_msg % 5)] ^= 0x01;
+        }
+        XSignature::from_bytes(x)
+    }
     fn longterm(&mut self, b: &BSpec, base: u64) -> LongTermKeyBundle {
         let pre = PreKey::new(self.prekey_pub(b.prekey), Lifetime::from_range(base + b.nb, base + b.na));
-        LongTermKeyBundle::new(self.ident_pub(b.ident), pre, self.signature(b.sig_by, b.sig_msg))
+        let sig = self.sig_of(b);
+        LongTermKeyBundle::new(self.ident_pub(b.ident), pre, sig)
     }
     fn onetime(&mut self, b: &BSpec, base: u64) -> OneTimeKeyBundle {
         let pre = PreKey::new(self.prekey_pub(b.prekey), Lifetime::from_range(base + b.nb, base + b.na));
         let otk = b.otk.map(|o| OneTimePreKey::new(self.prekey_pub(100_000 + o as usize), o));
-        OneTimeKeyBundle::new(self.ident_pub(b.ident), pre, self.signature(b.sig_by, b.sig_msg), otk)
+        { let sig = self.sig_of(b); OneTimeKeyBundle::new(self.ident_pub(b.ident), pre, sig, otk) }
+    }
+}
+
+/// Independent signature verdict on a bundle handed out by the registry (fields are private: serde).
+fn sig_genuine<T: serde::Serialize>(keys: &mut Keys, kb: &T, ident: usize, prekey: usize) -> bool {
+    let v = serde_json::to_value(kb).unwrap();
+    let got: Vec<u8> = v["prekey_signature"].as_array().map(|a| a.iter().map(|x| x.as_u64().unwrap() as u8).collect()).unwrap_or_default();
+    let msg: Vec<u8> = keys.prekey_pub(prekey).to_bytes().to_vec();
+    match <[u8; 64]>::try_from(got.as_slice()) {
+        Ok(bytes) => p2panda_encryption::crypto::xeddsa::xeddsa_verify(&msg, &keys.ident_pub(ident), &XSignature::from_bytes(bytes)).is_ok(),
+        Err(_) => false,
     }
 }
 
@@ -159,6 +180,7 @@ struct Shadow {
     longterm: HashMap<usize, Vec<BSpec>>,
     onetime: HashMap<usize, Vec<BSpec>>,
     identities: HashMap<usize, usize>,
+    restored: std::collections::HashSet<usize>,
     expired_while_stored: bool,
 }
 
@@ -207,7 +229,9 @@ fn run_phase(keys: &mut Keys, reg: &Reg, shadow: &Shadow, ops: &[Op], base: u64,
                         } else if !(now < b.na) {
                             fails.push(("accepted-expired".into(), format!("op {n}: bundle {} accepted at {now}", b.tok())));
                         } else if !b.genuine() {
-                            fails.push(("accepted-bad-signature".into(), format!("op {n}: bundle {} accepted", b.tok())));
+                            let has_genuine = sh.longterm.get(id).into_iter().chain(sh.onetime.get(id)).flatten().any(|g| g.genuine() && g.ident == b.ident && g.prekey == b.prekey);
+                            let tag = if has_genuine { "forged-signature-accepted-after-genuine" } else { "accepted-bad-signature" };
+                            fails.push((tag.into(), format!("op {n}: bundle {} accepted", b.tok())));
                         }
                         sh.identities.insert(*id, b.ident);
                         let l = if is_l { sh.longterm.entry(*id).or_default() } else { sh.onetime.entry(*id).or_default() };
@@ -239,6 +263,7 @@ fn run_phase(keys: &mut Keys, reg: &Reg, shadow: &Shadow, ops: &[Op], base: u64,
                 answers.push(a.to_string());
             }
             Op::QL(id) => {
+                let mut forged_mark = "";
                 let r = <KeyRegistry<usize> as PreKeyRegistry<usize, LongTermKeyBundle>>::key_bundle(reg.clone(), id);
                 let stored = sh.longterm.get(id).cloned().unwrap_or_default();
                 // the query path consults lifetimes only (signatures are checked when a bundle is added;
@@ -251,7 +276,13 @@ fn run_phase(keys: &mut Keys, reg: &Reg, shadow: &Shadow, ops: &[Op], base: u64,
                     Ok((y, Some(kb))) => {
                         reg = y;
                         let pk = keys.by_pub.get(&kb.signed_prekey().to_bytes()).copied().unwrap_or(0);
-                        match stored.iter().find(|b| b.prekey == pk) {
+                        let ident_no = stored.iter().find(|b| b.prekey == pk).map(|b| b.ident).unwrap_or(0);
+                        let ok_sig = sig_genuine(keys, &kb, ident_no, pk);
+                        if !ok_sig && !sh.restored.contains(id) {
+                            fails.push(("returned-forged-signature".into(), format!("op {n}: long-term query returned a bundle with an invalid signature (pre-key {pk})")));
+                        }
+                        forged_mark = if ok_sig { "" } else { "!" };
+                        match stored.iter().find(|b| b.prekey == pk && b.genuine() == ok_sig) {
                             None => fails.push(("returned-unknown".into(), format!("op {n}: long-term query returned a bundle never accepted for member {id}"))),
                             Some(b) => {
                                 if !b.life_at(now) {
@@ -263,7 +294,7 @@ fn run_phase(keys: &mut Keys, reg: &Reg, shadow: &Shadow, ops: &[Op], base: u64,
                             }
                         }
                         stats.push("ql-some".into());
-                        format!("b{pk}")
+                        format!("b{pk}{forged_mark}")
                     }
                     Ok((y, None)) => {
                         reg = y;
@@ -284,6 +315,7 @@ fn run_phase(keys: &mut Keys, reg: &Reg, shadow: &Shadow, ops: &[Op], base: u64,
                 answers.push(a);
             }
             Op::QO(id) => {
+                let mut forged_o = "";
                 let (y, got) = <KeyRegistry<usize> as PreKeyRegistry<usize, OneTimeKeyBundle>>::key_bundle(reg.clone(), id).unwrap();
                 reg = y;
                 let stored = sh.onetime.entry(*id).or_default();
@@ -294,17 +326,23 @@ fn run_phase(keys: &mut Keys, reg: &Reg, shadow: &Shadow, ops: &[Op], base: u64,
                 let a = match got {
                     Some(kb) => {
                         let pk = keys.by_pub.get(&kb.signed_prekey().to_bytes()).copied().unwrap_or(0);
-                        match stored.iter().rposition(|b| b.prekey == pk) {
+                        let ident_no = stored.iter().find(|b| b.prekey == pk).map(|b| b.ident).unwrap_or(0);
+                        let ok_sig = sig_genuine(keys, &kb, ident_no, pk);
+                        if !ok_sig {
+                            fails.push(("returned-forged-signature".into(), format!("op {n}: one-time query handed out a bundle with an invalid signature (pre-key {pk})")));
+                        }
+                        forged_o = if ok_sig { "" } else { "!" };
+                        match stored.iter().rposition(|b| b.prekey == pk && b.genuine() == ok_sig) {
                             None => fails.push(("returned-unknown".into(), format!("op {n}: one-time query returned a bundle not (or no longer) stored for member {id}"))),
                             Some(i) => {
                                 let b = stored.remove(i);
-                                if !b.valid_at(now) {
+                                if !b.life_at(now) {
                                     fails.push(("returned-expired-onetime".into(), format!("op {n}: one-time bundle {} handed out at {now}", b.tok())));
                                 }
                             }
                         }
                         stats.push("qo-some".into());
-                        format!("b{pk}")
+                        format!("b{pk}{forged_o}")
                     }
                     None => {
                         if any_valid {
@@ -325,6 +363,7 @@ fn run_phase(keys: &mut Keys, reg: &Reg, shadow: &Shadow, ops: &[Op], base: u64,
                 v["longterm_bundles"][id.to_string()] = Value::Array(bundles);
                 reg = serde_json::from_value(v).expect("registry from json");
                 sh.longterm.insert(*id, l.clone());
+                sh.restored.insert(*id);
                 stats.push("restore-longterm-list".into());
                 answers.push("ok".into());
             }
@@ -347,7 +386,8 @@ fn run_phase(keys: &mut Keys, reg: &Reg, shadow: &Shadow, ops: &[Op], base: u64,
                             }
                         }
                         stats.push("lk-some".into());
-                        format!("b{pk}")
+                        let ident_no = l.iter().find(|b| b.prekey == pk).map(|b| b.ident).unwrap_or(0);
+                        format!("b{pk}{}", if sig_genuine(keys, kb, ident_no, pk) { "" } else { "!" })
                     }
                     None => {
                         if best.is_some() {
@@ -413,12 +453,47 @@ fn gen_case(rng: &mut Rng, d: u64, next_prekey: &mut usize) -> Case {
         bundles.push((is_l, id, BSpec { ident, prekey, nb: nbf, na: naf, sig_by, sig_msg, otk }));
     }
     let add = |x: &(bool, usize, BSpec)| if x.0 { Op::AddL(x.1, x.2.clone()) } else { Op::AddO(x.1, x.2.clone()) };
+    // forged copies of genuine bundles: same identity key and signed pre-key, corrupted signature, valid
+    // lifetime — handed to registries that do (copy placed after the genuine add) or do not (placed before it,
+    // or the genuine one never added) already hold the genuine bundle
+    let mut forged_after: Vec<(usize, (bool, usize, BSpec))> = vec![];
+    let mut forged_alone: Vec<(bool, usize, BSpec)> = vec![];
+    for (i, x) in bundles.clone().iter().enumerate() {
+        if x.2.genuine() && x.2.valid_at(T1) && rng.chance(1, 2) {
+            for _ in 0..rng.range(1, 2) {
+                let mut f = x.2.clone();
+                f.sig_by = 0;
+                f.sig_msg = *rng.pick(&[0usize, 1, 2, 5, 9, 63, 70]);
+                f.na = *rng.pick(&[x.2.na, 5000, 6001]);
+                f.nb = 900;
+                if let Some(o) = f.otk { f.otk = Some(o + 100); }
+                if rng.chance(3, 4) { forged_after.push((i, (x.0, x.1, f))); } else { forged_alone.push((x.0, x.1, f)); }
+            }
+        }
+    }
     let mut p1: Vec<Op> = bundles.iter().map(add).collect();
     if rng.chance(1, 3) {
         let x = rng.pick(&bundles).clone();
         p1.push(add(&x)); // the same bundle again
     }
     rng.shuffle(&mut p1);
+    for (i, f) in &forged_after {
+        // somewhere after the genuine add
+        let genuine_tok = add(&bundles[*i]).tok();
+        let pos = p1.iter().position(|o| o.tok() == genuine_tok).unwrap_or(0);
+        let at = rng.range(pos as u64 + 1, p1.len() as u64) as usize;
+        p1.insert(at, add(f));
+    }
+    for f in &forged_alone {
+        p1.insert(0, add(f));
+    }
+    if !forged_after.is_empty() {
+        for m in 1..=members {
+            for _ in 0..rng.range(1, 3) {
+                p1.push(Op::QO(m));
+            }
+        }
+    }
     for m in 1..=members {
         if rng.chance(2, 3) {
             p1.push(Op::QL(m));
@@ -484,7 +559,18 @@ fn witness_cases(d: u64, next_prekey: &mut usize) -> Vec<Case> {
         BSpec { ident: 1, prekey: p, nb, na, sig_by: 1, sig_msg: p, otk }
     };
     let t2 = T1 + d;
-    vec![
+    let g1 = mk(900, 5000, Some(1));
+    let g2 = mk(900, 5000, None);
+    let forge = |g: &BSpec, variant: usize, otk: Option<u64>| BSpec { sig_by: 0, sig_msg: variant, otk, ..g.clone() };
+    let mut out = vec![
+        // genuine one-time bundle, then copies with the same identity key + signed pre-key and corrupted signatures
+        Case { p1: vec![Op::AddO(1, g1.clone()), Op::AddO(1, forge(&g1, 0, Some(2))), Op::AddO(1, forge(&g1, 1, Some(3))), Op::AddO(1, forge(&g1, 9, Some(4))), Op::QO(1), Op::QO(1)],
+               p2: vec![Op::AddO(1, forge(&g1, 63, Some(5))), Op::QO(1), Op::QO(1)], kind: "fixed-forged-after-genuine" },
+        Case { p1: vec![Op::AddO(1, forge(&g1, 1, Some(2))), Op::AddO(1, g1.clone()), Op::QO(1), Op::QO(1)], p2: vec![Op::QO(1)], kind: "fixed-forged-after-genuine" },
+        Case { p1: vec![Op::AddL(1, g2.clone()), Op::AddL(1, forge(&g2, 0, None)), Op::AddL(1, forge(&g2, 2, None)), Op::QL(1)],
+               p2: vec![Op::AddL(1, forge(&g2, 70, None)), Op::QL(1)], kind: "fixed-forged-after-genuine" },
+    ];
+    out.extend(vec![
         Case { p1: vec![Op::AddO(1, mk(900, T1 + 1, Some(1)))], p2: vec![Op::QO(1), Op::QO(1)], kind: "witness-onetime-expired" },
         Case {
             p1: vec![Op::AddO(1, mk(900, 5000, Some(1))), Op::AddO(1, mk(900, t2, Some(2))), Op::AddO(1, mk(900, t2 - 1, None))],
@@ -497,7 +583,8 @@ fn witness_cases(d: u64, next_prekey: &mut usize) -> Vec<Case> {
             kind: "fixed-longterm",
         },
         Case { p1: vec![Op::AddL(1, mk(900, T1 + 2, None)), Op::QL(1)], p2: vec![Op::QL(1), Op::Rx, Op::QL(1), Op::QL(2)], kind: "fixed-longterm" },
-    ]
+    ]);
+    out
 }
 
 fn line_of(c: &Case, now2: u64) -> String {
